@@ -4,6 +4,8 @@ import Verif.Model.SSH
 
   op=sign   prov=jwk|x5c|oidc|oidcadm|nebula|k8ssa|aws|awsdcs cau=0|1 cah=0|1 dbe=0|1 epc=0|1 sub=x… ssh=0|1 tct=x… tkid=x… tpr=<list>
             oem=x… ousr=<list> nbn=x… nbi=<list> tpip=<list of x…|!> tva=-|<n> tvb=-|<n> rva=-|<n> rvb=-|<n> rct=x… rkid=x… rpr=<list> au=0|1 scfg=0|1 key=ok|rsasmall|dsa
+            [via=api: through the real router and api.SSHSign / SSHRenew / SSHRekey; refusals are printed http:refused]
+            [idc=1 isub=<san> isig= icn= idns= iip= iem= iuri= iuuid=x…|- ienc= igen=x…: identityCSR of the request]
   op=renew|rekey|revoke
             cau= cah= dren=0|1 aexp=0|1 ct=<n> kid=x… pr=<list> pco=<kv list> pex=<kv list> su=0|1 sh=0|1 ny=0|1 ex=0|1 hv=0|1
             tsig= tcl= taud= tsub= tser= rev=0|1 key=ok|rsasmall|dsa
@@ -76,18 +78,42 @@ def eval (line : String) : Option String := do
     let rv : RVal := ⟨(← optNat? (← get "rva")), (← optNat? (← get "rvb"))⟩
     let req : Opts := ⟨(← str? (← get "rct")), (← str? (← get "rkid")), (← list? str? (← get "rpr"))⟩
     match sshSign ca (← prov? (← get "prov")) tok o req key rv with
-    | .refused 401 => pure "unauth"
-    | .refused st => pure s!"refuse:{st}"
+    | .refused 401 => pure (if (get "via") = some "api" then "http:refused" else "unauth")
+    | .refused st => pure (if (get "via") = some "api" then "http:refused" else s!"refuse:{st}")
     | .issued c sg =>
       let cv := certValidity ⟨o.tva, o.tvb⟩ rv
+      let viaAPI := (get "via") = some "api"
+      -- identity certificate (API mode only)
+      let idS ← (if (get "idc") = some "1" then do
+          let kind? := fun (x : String) => match x with
+            | "d" => some SignNames.Kind.dns | "i" => some SignNames.Kind.ip
+            | "e" => some SignNames.Kind.email | "u" => some SignNames.Kind.uri | _ => none
+          let isub ← (match (← get "isub").splitOn ":" with
+            | [k, a, b] => do pure (SignNames.San.mk (← kind? k) (← str? a) (← str? b))
+            | _ => none)
+          let icsr : SignNames.CSR := {
+            sigOK := (← bool? (← get "isig")), cn := (← str? (← get "icn")),
+            dns := (← list? str? (← get "idns")), ips := (← list? str? (← get "iip")),
+            emails := (← list? str? (← get "iem")), uris := (← list? str? (← get "iuri")),
+            key := 1, keyOK := true, exts := [] }
+          let iu ← get "iuuid"
+          let uuid ← (if iu = "-" then some none else (str? iu).map some)
+          let r : IdReq := ⟨isub, icsr, uuid, (← bool? (← get "ienc")), ⟨0, (← str? (← get "igen"))⟩⟩
+          match identityCert (← prov? (← get "prov")) r with
+          | .issued ic =>
+            pure (some s!" id=cn={xs ic.cn},dns={listS (ic.dns.map xs)},ip={listS (ic.ips.map xs)},em={listS (ic.emails.map xs)},uri={listS (ic.uris.map xs)},key={ic.key}")
+          | _ => pure none
+        else pure (some ""))
+      if viaAPI ∧ idS = none then return "http:refused"
+      let idS := idS.getD ""
       if (← bool? (← get "au")) then
         match signAddUserM true (← bool? (← get "scfg")) c with
         | .crash => pure "crash"
-        | .val none => pure s!"issue {certS c} va={natS cv.va} vb={natS cv.vb} by={signerS sg} au=none"
+        | .val none => pure s!"issue {certS c} va={natS cv.va} vb={natS cv.vb} by={signerS sg} au=none{idS}"
         | .val (some a) =>
-          pure s!"issue {certS c} va={natS cv.va} vb={natS cv.vb} by={signerS sg} au=kid={xs a.keyID},pr={listS (a.principals.map xs)},fc={xs a.forceCommand}"
+          pure s!"issue {certS c} va={natS cv.va} vb={natS cv.vb} by={signerS sg} au=kid={xs a.keyID},pr={listS (a.principals.map xs)},fc={xs a.forceCommand}{idS}"
       else
-        pure s!"issue {certS c} va={natS cv.va} vb={natS cv.vb} by={signerS sg}"
+        pure s!"issue {certS c} va={natS cv.va} vb={natS cv.vb} by={signerS sg}{idS}"
   | op =>
     let cfg : PopCfg := ⟨ca, (← bool? (← get "dren")), (← bool? (← get "aexp"))⟩
     let c : PopCert := {
